@@ -9,14 +9,29 @@ theorem record_reads_full : reads_ReadHeader = ["full"] ∧ reads_ReadBody = ["f
 
 /-- **an authentication failure is latched by both readers** (the model's
     `failed` flag): ReadHeader and ReadBody refuse to work once `readAuthErr` is
-    set, and each sets it when its decrypt fails -/
+    set, and each sets it after its decrypt (when that fails) -/
 theorem auth_error_latched_in_both_readers :
     skel_Machine_ReadHeader.take 3 = ["if", "cond:b.readAuthErr != nil", "return"] ∧
     skel_Machine_ReadBody.take 3 = ["if", "cond:b.readAuthErr != nil", "return"] ∧
-    skel_Machine_ReadHeader.idxOf "call:b.recvCipher.Decrypt" < skel_Machine_ReadHeader.idxOf "assign:b.readAuthErr" ∧
-    skel_Machine_ReadBody.idxOf "call:b.recvCipher.Decrypt" < skel_Machine_ReadBody.idxOf "assign:b.readAuthErr" ∧
-    skel_Machine_ReadHeader.contains "assign:b.readAuthErr" = true ∧
-    skel_Machine_ReadBody.contains "assign:b.readAuthErr" = true := by decide
+    (skel_Machine_ReadHeader.drop (skel_Machine_ReadHeader.idxOf "call:b.recvCipher.Decrypt")).contains "assign:b.readAuthErr" = true ∧
+    (skel_Machine_ReadBody.drop (skel_Machine_ReadBody.idxOf "call:b.recvCipher.Decrypt")).contains "assign:b.readAuthErr" = true ∧
+    skel_Machine_ReadHeader.contains "call:b.recvCipher.Decrypt" = true ∧
+    skel_Machine_ReadBody.contains "call:b.recvCipher.Decrypt" = true := by decide
+
+/-- **a read that fails inside a record is latched too** (repair 98daed6; the
+    pause branches of the model's `readMessage`): between `io.ReadFull` and the
+    decrypt, both readers set the latch when some bytes had been consumed, and
+    `ReadMessage` sets it whenever the body read fails after its header was read -/
+theorem partial_read_latched :
+    (let s := skel_Machine_ReadHeader
+     ((s.take (s.idxOf "call:b.recvCipher.Decrypt")).drop (s.idxOf "call:io.ReadFull")).take 6 =
+       ["call:io.ReadFull", "if", "cond:err != nil", "if", "cond:n > 0", "assign:b.readAuthErr"]) ∧
+    (let s := skel_Machine_ReadBody
+     ((s.take (s.idxOf "call:b.recvCipher.Decrypt")).drop (s.idxOf "call:io.ReadFull")).take 6 =
+       ["call:io.ReadFull", "if", "cond:err != nil", "if", "cond:n > 0", "assign:b.readAuthErr"]) ∧
+    (let s := skel_Machine_ReadMessage
+     (s.drop (s.idxOf "call:b.ReadBody")).take 4 =
+       ["call:b.ReadBody", "if", "cond:err != nil && b.readAuthErr == nil", "assign:b.readAuthErr"]) := by decide
 
 /-- the latch lives in the Machine, not in the cipher state that a key rotation re-initialises -/
 theorem rotation_does_not_touch_the_latch :
